@@ -479,7 +479,7 @@ class ViewsStream(Stream):
         # F16 regression (repaired by 8064f72): attribute assignment reaches the setters
         {"fam": "auth", "prop": "WWW-Authenticate", "init": [["WWW-Authenticate", "Basic realm=\"x\""]], "ops": [["v", "token", "xyz"]]},
         {"fam": "auth", "prop": "WWW-Authenticate", "init": [["WWW-Authenticate", "Basic realm=\"x\""]], "ops": [["v", "type", "digest"], ["v", "params", [["realm", "a"], ["nonce", "b"]]]]},
-        # F08b / F08c surfacing through a view (known): case-duplicates in a HeaderSet view
+        # F08b surfacing through a view (known); F08c (repaired by 1a2e0e6): a header with case-duplicates parses to one member
         {"fam": "set", "prop": "Vary", "init": [["Vary", "a, b"]], "ops": [["v", "setitem", 0, "B"], ["v", "remove", "b"]]},
         {"fam": "set", "prop": "Vary", "init": [["Vary", "Cookie, cookie"]], "ops": [["v", "delitem", 0]]},
         # F16e regression (repaired by 78ff821): the type setter lower-cases
@@ -593,7 +593,7 @@ class ViewsStream(Stream):
         synced = in_sync()
         if not synced:
             problems.append((0, "", "a freshly fetched view differs from re-reading the property"))
-        dup_origin = "F08c" if (fam == "set" and set_diverged(held)) else ""
+        dup_origin = ""
         for i, op in enumerate(case["ops"], 1):
             kind = op[0]
             before = content(fam, held)
@@ -625,8 +625,8 @@ class ViewsStream(Stream):
             # ---- the property, stated on the real objects
             if fam == "set":
                 if kind == "f":
-                    # a view built from a header text with case-duplicate members (F08c)
-                    dup_origin = "F08c" if set_diverged(held) else ""
+                    # (F08c is repaired by 1a2e0e6: a fetched view is never diverged; nothing maps to it)
+                    dup_origin = ""
                 elif kind == "v" and op[1] == "setitem" and not ret.startswith("!") and collides:
                     dup_origin = dup_origin or "F08b"  # item assignment of a member present elsewhere
             empty_note = classify(fam, r, held, hname, pre_ct, dup_origin, vals_after)
@@ -901,7 +901,7 @@ class SharedViewsStream(Stream):
             r.headers = ds.Headers([(k, v) for k, v in init])
         held = [getattr(rs[0], attr), getattr(rs[1], attr)]
         owner = [0, 1]
-        cause = ["F08c" if (fam == "set" and set_diverged(h)) else "" for h in held]
+        cause = ["", ""]
         problems = []
         vs = ViewsStream()
 
@@ -958,7 +958,7 @@ class SharedViewsStream(Stream):
             failed = ret.startswith("!")
             if kind == "f":
                 j = op[1]
-                cause[j] = "F08c" if (fam == "set" and set_diverged(held[j])) else ""
+                cause[j] = ""
                 note = classify(fam, rs[owner[j]], held[j], hname, pre_ct[owner[j]], cause[j], vals_after[owner[j]])
                 if not in_sync(j):
                     problems.append((i, note, "a freshly fetched view differs from re-reading the property"))
@@ -1366,10 +1366,11 @@ PROPNAME = {"date": "Date", "expires": "Expires", "last_modified": "Last-Modifie
 
 CHECK = Check(
     prop="C16",
-    gen=["Containers", "Views", "ResponseProps", "CacheSetTable", "PyFns_Headers", "PyFns_HeaderSet", "Http", "PyFns_Http", "PyFns_Internal", "PyFns_HttpDict"],
-    modules=["WzVerif.Props.C16", "WzVerif.Props.C08T", "WzVerif.Props.C16T"],
+    gen=["Containers", "Views", "ResponseProps", "CacheSetTable", "PyFns_Headers", "PyFns_HeaderSet", "Http", "PyFns_Http", "PyFns_Internal", "PyFns_HttpDict", "PyFns_CacheControl"],
+    modules=["WzVerif.Props.C16", "WzVerif.Props.C08T", "WzVerif.Props.C16T", "WzVerif.Props.C16T2"],
     streams=[ViewsStream(), SharedViewsStream(), ScalarStream()],
     assumptions=[
+        "C16T2 (_CacheControl._get/_set/_del_cache_value as regenerated from the source): one translation per property type (bool / int / None) with a value of that type or None; the object is its dict of str | None values; int(text) is C06's hand model pyInt",
         "the header codecs used by the views are the C06 models (Model/Http.lean: parse_list_header/urllib parse_http_list, parse_set_header, parse_dict_header, dump_header, parse_csp_header, parse_content_range_header, WWWAuthenticate.from_header/to_header, parse_options_header, dump_options_header), validated here by stream views and in C06 by its own streams; the view_coherent_* theorems use the C06 round-trip theorems, their only side conditions are explicit domain predicates on the written views (setGood, dictGood, cspGood, crGood, authGood, mpGood) and HeaderSet.Inv / non-colliding item assignment for the set views; WWW-Authenticate Digest challenges (always-quoted parameters) are inside authGood through C06's www_digest_roundtrip when every parameter value is a text",
         "ContentRange.set / unset / to_header / __bool__ are regenerated from the source by tools/py2lean.py (Gen/PyFns_HttpDict.lean) on every run and proved equal to the view model's steps CR.step / CR.toHeader for all inputs (Props/C16T); the object's attributes and the flag 'on_update was called' are threaded explicitly",
         "dates: typed_get_set_date is proved on C06's date model (http_date / parse_date of every second from year 100 to 9999); in the scalars stream the harness still computes the date text with the library call and the model covers the Headers mechanics; retry_after's clock (datetime.now) is pinned by the harness and int(value) is CC.pyInt (optional sign + ASCII digits); generate_etag / sha1 do not occur (set_etag takes the tag)",
@@ -1386,7 +1387,7 @@ CHECK = Check(
 
 MANIFEST = {
     "level_text": "Machine-checked Lean 4 theorems: for every history of view mutations, re-fetches, whole-property assignments and direct header edits, the notification discipline of each view family (HeaderSet views under HeaderSet.Inv, cache-control / CSP / mimetype_params callback dicts, ContentRange, WWWAuthenticate as repaired) keeps the held view in sync with the header, and after an effective mutation the header text is the view's serialisation or absent when the view is empty; the same for view objects shared between several responses and several live objects of one response (the www_authenticate setter re-targets the callback, proved and pinned in the source by an AST obligation); typed get/set for every scalar property (str, int, age, dates on the C06 date model, set-valued access-control headers, COOP/COEP enums, mimetype, retry_after, access_control_allow_credentials, set_etag/get_etag) with a decide obligation that every header-backed attribute of sansio.Response is covered or excluded. The transcribed views are tied to the code by an exhaustive short-history correspondence stream and the two-part property oracle runs on the real objects.",
-    "level_note": "Trusted: Lean kernel; extract.py; harness; codec round trips are the C06 theorems (domain predicates on the written views are the only side conditions; Digest challenges included); dates opaque. Known findings F16b, F16c, F16d, F16f, F08b/F08c through views.",
+    "level_note": "Trusted: Lean kernel; extract.py; harness; codec round trips are the C06 theorems (domain predicates on the written views are the only side conditions; Digest challenges included); dates opaque. Known findings F16b, F16c, F16d, F16f, F08b through views.",
     "technique": "Lean 4 proof (invariant over operation histories, generic in the view family) + model/code correspondence",
     "design_ref": "DESIGN.md section 4, C16",
 }
